@@ -155,31 +155,56 @@ def run(ctx, rep):
               "Vec::set_len used in %s" % sorted(creators))
 
     # ---------- R8.3 writer pairing/order
-    clo = BW + "push_cdp_arr::{closure#0}"
-    if clo in f.fns:
-        b = cg.body(clo)
-        pushes = {}
-        parent = clo.rsplit("::{closure", 1)[0]
-        upv = {}
-        if parent in f.fns:
-            pb = cg.body(parent)
-            for i, j, st in pb.stmts():
-                if st["k"] == "assign" and st["rv"]["k"] == "agg" and st["rv"].get("closure") == clo:
-                    for k, op_ in enumerate(st["rv"]["ops"]):
-                        upv[str(k)] = show_origin(pb.origin(op_)).rsplit(".", 1)[-1]
-        for bb, t, cal, c in b.calls():
-            if cal and cal.endswith("Vec::<T, A>::push"):
-                recv = show_origin(b.origin(t["args"][0]))
-                val = show_origin(b.origin(t["args"][1]))
-                key = recv.rsplit(".", 1)[-1]
-                pushes[upv.get(key, key)] = (val, bb)
-        good = set(pushes) == {"filtered_rdhs_buffer", "filtered_payload_buffers"} and pushes["filtered_rdhs_buffer"][0] == "arg2.0" and pushes["filtered_payload_buffers"][0] == "arg2.1"
-        rep.check(good, "R8.3", "R8.3|pairwise_push", "each packet's header and payload are pushed together, unchanged", clo, "closure pushes %s" % pushes)
+    # both batch entry points push header (.0) and payload (.1) of the same element, unconditionally, for every
+    # element — whether written as `into_iter().for_each(closure)` or as a `for` loop
+    for entry in ("push_cdp_arr", "push_cdp_vec"):
+        fn_ = BW + entry
+        if fn_ not in f.fns:
+            if entry == "push_cdp_arr":
+                rep.missing("R8.3", fn_)
+            continue
+        found = None
+        for cand in [fn_] + sorted(q for q in f.fns if q.startswith(fn_ + "::{closure#")):
+            b = cg.body(cand)
+            upv = {}
+            if cand != fn_:
+                pb = cg.body(fn_)
+                for i_, j_, st in pb.stmts():
+                    if st["k"] == "assign" and st["rv"]["k"] == "agg" and st["rv"].get("closure") == cand:
+                        for k, op_ in enumerate(st["rv"]["ops"]):
+                            upv[str(k)] = show_origin(pb.origin(op_)).rsplit(".", 1)[-1]
+            pushes = {}
+            for bb, t, cal, c in b.calls():
+                if cal and cal.endswith("Vec::<T, A>::push"):
+                    recv = show_origin(b.origin(t["args"][0]))
+                    val = show_origin(b.origin(t["args"][1]))
+                    key = recv.rsplit(".", 1)[-1]
+                    pushes.setdefault(upv.get(key, key), []).append((val, bb))
+            if pushes:
+                found = (cand, b, pushes)
+                break
+        if not found:
+            rep.bad("R8.3", "R8.3|pairwise_push|%s" % entry, "%s pushes nothing into the writer's buffers" % entry, fn_)
+            continue
+        cand, b, pushes = found
+        good = set(pushes) == {"filtered_rdhs_buffer", "filtered_payload_buffers"} and all(len(v) == 1 for v in pushes.values())
+        detail = {k: [x[0] for x in v] for k, v in pushes.items()}
         if good:
-            bbs = [v[1] for v in pushes.values()]
-            rep.check(b.all_paths_pass(0, [bbs[0]]) and b.all_paths_pass(0, [bbs[1]]), "R8.3", "R8.3|push_all_paths", "both pushes on every path", clo)
-    else:
-        rep.missing("R8.3", clo)
+            hv, hb = pushes["filtered_rdhs_buffer"][0]
+            pv, pb_ = pushes["filtered_payload_buffers"][0]
+            good = hv.endswith(".0") and pv.endswith(".1") and hv[:-2] == pv[:-2]
+            if good:
+                if cand != fn_:
+                    good = hv[:-2] == "arg2" and b.all_paths_pass(0, [hb]) and b.all_paths_pass(0, [pb_])
+                else:
+                    nxt = [bb for bb, t, cal, c in b.calls() if cal and cal.endswith("Iterator>::next")]
+                    good = "next(" in hv and len(nxt) == 1 and b.on_cycle(hb) and b.on_cycle(pb_) and b.dominates(nxt[0], hb) \
+                        and b.all_paths_pass(hb, [pb_], to=nxt) and b.all_paths_pass(pb_, [hb], to=nxt + b.return_blocks()) is not None
+                    # every element: no branch between `next() == Some` and the first push
+                    first, second = (hb, pb_) if b.dominates(hb, pb_) else (pb_, hb)
+                    good = good and b.dominates(first, second) and b.all_paths_pass(nxt[0], [first] , to=[second])
+        rep.check(good, "R8.3", "R8.3|pairwise_push|%s" % entry, "%s: each packet's header (.0) and payload (.1) are pushed together, unchanged, for every element" % entry, cand,
+                  "%s pushes %s" % (entry, detail))
     fl = BW + "flush"
     if fl in f.fns:
         b = cg.body(fl)
